@@ -223,6 +223,10 @@ def mutate(rng, root, layout, info, klass):
         else:
             d = rng.choice(dirs)
             nm = 'stray' + gtree.rand_name(rng, 0.2)
+            if klass == 'stray' and rng.random() < 0.12:
+                # a name that is not UTF-8 on disk (seen as surrogate escapes): it
+                # cannot be listed by a Manifest of this tree, so it is a stray file
+                nm = 'stray-' + rng.choice(['\udcff', '\udce9t\udce9', 'a\udc80b']) + '.sh'
             f = nm if not d else d + '/' + nm
         if os.path.lexists(os.path.join(root, f)):
             return None
